@@ -22,6 +22,9 @@ def cfgs(topo, tier, *, caches=(True, False), lazies=(True,), K=2, until=3, mask
                 for salt in salts:
                     c = {'until': until if cache or until != 'symnc' else 'sym', 'K': K, 'cache': cache, 'lazy': lazy,
                          'D': D, 'sync': sync, 'salt': salt}
+                    if c['until'] == 'sym':
+                        # with an unbounded symbolic until every outstanding demand forks on "< until"; keep the hard step bound there
+                        c['quiet_after_K'] = False
                     if extra:
                         c.update(extra)
                     out.append(c)
